@@ -41,6 +41,14 @@ DemOK(c) ==
   /\ c.need = (IF Len(c.b) < 16 THEN 0 ELSE IF fx.ok THEN fx.total ELSE -1)
   /\ (shouldAcc => LET d == MessageDecL(SubSeq(c.b, 1, fx.total), 0, LUN) IN d.ok /\ c.m = d.m)
 
+\* ---- one array at the length limit (C01): a signal whose body is a single array of c.nbytes zero bytes of a fixed-size
+\* element type; too large to spell out byte by byte, so the clause of the specification is applied to the numbers:
+\* an array is at most 2^26 bytes long, a whole number of elements, and the message at most 2^27 bytes
+ElemSize(t) == CASE t = 121 -> 1 [] t \in {110, 113} -> 2 [] t \in {120, 116, 100} -> 8 [] OTHER -> 4
+BigArrOK(c) == LET ok == /\ c.nbytes <= MaxArrayLen /\ c.nbytes % ElemSize(c.elem) = 0
+                        /\ c.hlen + c.blen <= MaxMsgLen IN
+               c.acc = B2I(ok) /\ c.lc = B2I(~ok) /\ c.ln = B2I(ok)
+
 \* ---- chunked feeding (C11) ----
 RECURSIVE StepsOK(_,_,_,_)
 StepsOK(c, k, seen, dead) ==
@@ -117,7 +125,11 @@ OReplay(cmds, k, reg) ==
                                 \/ /\ "UnknownObjectNeverSent" \in DevSet
                                    /\ r.err = S_org_freedesktop_DBus_Error_UnknownObject
                                    /\ cm.err = S_org_freedesktop_DBus_Error_UnknownMethod
-                             /\ OReplay(cmds, k + 1, reg)
+                             \* handlers that were offered the call and unregister their own path inside the callback: the
+                             \* list of handlers to offer it to was fixed before, the tree changes for what follows
+                             /\ LET gone == IF "un" \in DOMAIN cm
+                                            THEN {q \in DOMAIN reg : reg[q].id \in SetOfSeq(cm.un) /\ reg[q].id \in SetOfSeq(r.invoked)} ELSE {} IN
+                                OReplay(cmds, k + 1, [q \in DOMAIN reg \ gone |-> reg[q]])
       [] cm.k = "children" -> /\ SetOfSeq(cm.kids) = Children(reg, cm.p) /\ Len(cm.kids) = Cardinality(Children(reg, cm.p))
                               /\ OReplay(cmds, k + 1, reg)
 OTreeOK(c) == OReplay(c.cmds, 1, <<>>)
@@ -153,7 +165,7 @@ PthrOK(c) == /\ \A i \in 1..Len(c.calls) : ThrCallOK(c.calls[i])
 \* chunking (first chunk in the same write as the BEGIN line when libdbus is the server), and whether it gave up ----
 TChunkOK(c) == LET fr == FrameL(c.b, LUN) IN c.out = fr.out /\ c.disc = B2I(fr.corrupt)
 
-CaseOK(c) == CASE c.k = "tchunk" -> TChunkOK(c) [] c.k = "pthr" -> PthrOK(c) [] c.k = "helper" -> HelperOK(c) [] c.k = "auth" -> AuthOK(c) [] c.k = "otree" -> OTreeOK(c) [] c.k = "pcall" -> PCallOK(c) [] c.k = "build" -> BuildOK(c) [] c.k = "edit" -> EditOK(c) [] c.k = "syn" -> SynOK(c) [] c.k = "dem" -> DemOK(c) [] c.k = "chunk" -> ChunkOK(c)
+CaseOK(c) == CASE c.k = "bigarr" -> BigArrOK(c) [] c.k = "tchunk" -> TChunkOK(c) [] c.k = "pthr" -> PthrOK(c) [] c.k = "helper" -> HelperOK(c) [] c.k = "auth" -> AuthOK(c) [] c.k = "otree" -> OTreeOK(c) [] c.k = "pcall" -> PCallOK(c) [] c.k = "build" -> BuildOK(c) [] c.k = "edit" -> EditOK(c) [] c.k = "syn" -> SynOK(c) [] c.k = "dem" -> DemOK(c) [] c.k = "chunk" -> ChunkOK(c)
 BadCases == {i \in 1..Len(Log) : ~CaseOK(Log[i])}
 \* evaluated in Next (worker thread: honours -Xss), not in Init (main thread)
 Init == x = 0
